@@ -107,7 +107,8 @@ def run_fresh(ck, cases, hashseeds, tag):
     path = core.WORK / f"front-cases-{ck.pid}-{tag}-{ck.seed}.json"
     path.write_text(json.dumps(cases))
     out = {}
-    for hs in hashseeds:
+
+    def one(hs):
         try:
             p = core.run_isolated(
                 f"from harness import front_worker as w; w.main({str(path)!r})",
@@ -116,11 +117,18 @@ def run_fresh(ck, cases, hashseeds, tag):
             )
             line = next((ln for ln in p.stdout.splitlines() if ln.startswith("RESULT ")), None)
             if p.returncode != 0 or line is None:
-                ck.broken("correspondence", "fresh-process worker failed", f"hash seed {hs}: rc={p.returncode} {p.stderr[-600:]}")
-                continue
-            res = json.loads(line[len("RESULT "):])
+                return hs, None, f"rc={p.returncode} {p.stderr[-600:]}"
+            return hs, json.loads(line[len("RESULT "):]), None
         except Exception as e:  # noqa: BLE001
-            ck.broken("correspondence", "fresh-process worker failed", f"hash seed {hs}: {type(e).__name__}: {e}")
+            return hs, None, f"{type(e).__name__}: {e}"
+
+    from concurrent.futures import ThreadPoolExecutor
+
+    with ThreadPoolExecutor(max_workers=6) as pool:
+        done = list(pool.map(one, hashseeds))
+    for hs, res, err in done:  # in the order of `hashseeds`: the verdict does not depend on scheduling
+        if res is None:
+            ck.broken("correspondence", "fresh-process worker failed", f"hash seed {hs}: {err}")
             continue
         for j, r in enumerate(res):
             if isinstance(r, dict) and "worker_error" in r:
@@ -171,7 +179,7 @@ def run(ck: core.Check):
         ck.leanchecker(["SpoxModel.Props.C03"])
 
     rng = ck.rng
-    n_prog = ck.pick(360, 3000)
+    n_prog = ck.pick(500, 3000)
     cases = []  # (prog, env, [reqs])
     for _ in range(n_prog):
         prog = lf.gen_program(rng)
